@@ -9,6 +9,7 @@ model state for some per-session prefix of writer statements admissible at its s
 before the call => visible; invoked after the snapshot was taken => invisible; each statement
 atomic); (2) no reader error or panic; (3) online trace specification over version-manager
 events: a row-set is never selected for vacuum while a pinned epoch contains it."""
+import os
 import itertools
 import random
 
@@ -289,6 +290,10 @@ def run(tier, seed):
     rep.assumptions = ["current-thread runtime, paused clock: interleavings at hook points and existing await points only",
                        "writers own disjoint ids, so per-session prefixes compose; a statement is visible to a reader entirely or not at all",
                        "multi-thread/TSan legs are part of C10"]
+    if tier == "thorough" and not os.environ.get("VERIF_OVERLAY"):
+        import sanitize
+        sanitize.overlay(rep, "asan", timeout=5400)
+        sanitize.overlay(rep, "tsan", timeout=5400)
     return rep.finish()
 
 
